@@ -473,7 +473,10 @@ class Ctx:
 
     def is_real_poly(s, p):
         at = s.atoms
-        return all(c.im == 0 and all(at.real[a] for a, _ in m) for m, c in p.t.items())
+        if all(c.im == 0 and all(at.real[a] for a, _ in m) for m, c in p.t.items()): return True
+        # real-valued for every assignment iff it equals its own conjugate (z + conj z, z conj z, ...)
+        if any(at.conj[a] is None and not at.unit[a] for m in p.t for a, _ in m): return False
+        return s.reduce(p.conj(at)).key() == p.key()
 
     # ---- zero test
     def decide_zero(s, p):
@@ -909,12 +912,28 @@ def sym_sin(x):
     return (u - u.conjugate()) * SC(Poly.const(G(0, F(-1, 2))))
 
 
-def sym_complex(a=0, b=0):
+def _sym_complex_impl(a=0, b=0):
     if isinstance(a, SC) or isinstance(b, SC):
         return SC.lift(a) + SC.lift(b) * jay()
     if isinstance(a, SAbs) or isinstance(b, SAbs):
         raise Inconclusive('complex() of a magnitude')
     return complex(a, b)
+
+
+class _SymComplexMeta(type):
+    """stands in for the builtin `complex` inside repository modules: callable like complex(), and isinstance(x, complex) is
+    true for Python complex numbers and for symbolic values not known to be real"""
+    def __call__(cls, a=0, b=0):
+        return _sym_complex_impl(a, b)
+
+    def __instancecheck__(cls, obj):
+        if isinstance(obj, complex): return True
+        if isinstance(obj, SC): return not CTX.is_real_poly(obj.p)
+        return False
+
+
+class sym_complex(metaclass=_SymComplexMeta):
+    pass
 
 
 def sym_float(x=0.0):
